@@ -1216,3 +1216,176 @@ def copyspecial(F, R):
         R.ob('C15.fields', not missing, {'func': f.q, 'fields': [fd['n'] for fd in rec['fields']], 'copied': sorted(written)})
         if missing:
             R.find('C15.fields', f, 'user-copy-missing:' + ','.join(missing), 'the user-provided %s of %s does not copy data member(s) %s' % ('copy constructor' if sp == 'copy_ctor' else 'copy assignment', f.cls, missing))
+
+# ------------------------------------------------------------------ backmp11 pool loop, occurrence processing, exit-point wiring
+
+@rule('poolloop')
+def poolloop(F, R):
+    """C04.pool-loop / C05.before-dispatch (backmp11): shape of the event-pool processing loop and of the occurrence processors."""
+    from rules_order import dependency_closure
+    for f in F.funcs:
+        if backend_of(f) != 'backmp11' or not f.blocks: continue
+        if f.n == 'do_process_event_pool' and f.cls == 'state_machine_base':
+            R.seen(f); R.anchor('pool-loop')
+            ok = True; why = ''
+            npaths = 0
+            for p in f.paths(max_paths=4000, edge_bound=1):
+                if f.aborts(p): continue
+                npaths += 1
+                # walk the path and cut it into loop iterations at each call of marked_for_deletion (first statement of the body)
+                segs = []; cur = None; facts_ = []
+                for bi, b in enumerate(p):
+                    blk = f.bmap[b]
+                    for i in blk['e']:
+                        n = f.nodes[i]
+                        if not n: continue
+                        if n['k'] == 'call' and n.get('n') == 'marked_for_deletion':
+                            cur = {'tok': [], 'facts': []}; segs.append(cur)
+                        if cur is None: continue
+                        if n['k'] == 'call' and n.get('n') == 'erase': cur['tok'].append('E')
+                        elif n['k'] == 'call' and n.get('n') == 'try_process': cur['tok'].append('T')
+                        elif n['k'] == 'un' and n['op'] == '++' and f.nodes[n['e']] and f.nodes[n['e']].get('n') == 'it': cur['tok'].append('I')
+                        elif n['k'] == 'call' and n.get('op') == '++' : cur['tok'].append('I')
+                        elif n['k'] == 'un' and n['op'] == '++' and f.nodes[n['e']] and f.nodes[n['e']].get('n') == 'processed_events': cur['tok'].append('P')
+                        elif n['k'] in ('asg',) and n['op'] == '+=' and 'cur_seq_cnt' in f.expr(n['lhs']): cur['tok'].append('S')
+                        elif (n['k'] == 'asg' or (n['k'] == 'call' and n.get('op') == '=')) and 'begin' in f.expr(i) and f.expr(i).lstrip('(').startswith('it') or (n['k'] == 'call' and n.get('op') == '=' and n.get('obj') and f.nodes[n['obj']].get('n') == 'it' and 'begin' in f.expr(i)): cur['tok'].append('B')
+                        elif n['k'] == 'ret': cur['tok'].append('R')
+                    if cur is not None and bi + 1 < len(p):
+                        for c, t in cond_facts(f, blk, p[bi + 1]):
+                            txt = f.expr([k for k, x in enumerate(f.nodes) if x is c][0]) if any(x is c for x in f.nodes) else ''
+                            cur['facts'].append((txt, t))
+                for sg in segs:
+                    tk = ''.join(sg['tok']).replace('R', '')
+                    fx = dict((a, b) for a, b in sg['facts'])
+                    marked = next((v for k, v in sg['facts'] if 'marked_for_deletion' in k), None)
+                    hasv = next((v for k, v in sg['facts'] if 'has_value' in k), None)
+                    only_def = next((v for k, v in sg['facts'] if '!=' in k and 'HANDLED_DEFERRED' in k), None)
+                    with_def = next((v for k, v in sg['facts'] if '&' in k and 'HANDLED_DEFERRED' in k and '!=' not in k), None)
+                    if marked is True:
+                        if tk != 'E': ok = False; why = 'an occurrence already marked as processed must only be erased (found %s)' % tk
+                    elif marked is False:
+                        if hasv is False and tk != 'TI': ok = False; why = 'an occurrence that was not dispatched must be skipped by advancing the iterator (found %s)' % tk
+                        if hasv is True:
+                            if 'I' in tk or 'E' in tk: ok = False; why = 'after a dispatch the scan must restart, not advance (found %s)' % tk
+                            if ('P' in tk) != (only_def is True): ok = False; why = 'the processed-events counter must count exactly the results other than "only deferred" (found %s with != DEFERRED %s)' % (tk, only_def)
+                            if 'B' in tk and (('S' in tk) != (with_def is False)):
+                                ok = False; why = 'the sequence counter must advance exactly when the result does not carry the deferred bit (found %s with (r & DEFERRED) = %s)' % (tk, with_def)
+                            if 'B' not in tk and 'P' not in tk: ok = False; why = 'after a dispatch the scan must restart from the beginning of the pool (found %s)' % tk
+            R.ob('C04.pool-loop', ok, {'func': f.q, 'paths': npaths})
+            if not ok: R.find('C04.pool-loop', f, 'loop-shape', why)
+        if f.n == 'try_process_impl' and f.cls in ('deferred_event', 'completion_event_occurrence'):
+            R.seen(f); R.anchor('occurrence:' + f.cls)
+            ok = True; why = ''
+            for p in f.paths():
+                tk = []; fx = []
+                for bi, b in enumerate(p):
+                    blk = f.bmap[b]
+                    for i in blk['e']:
+                        n = f.nodes[i]
+                        if n and n['k'] == 'call':
+                            if n.get('n') == 'mark_for_deletion': tk.append('M')
+                            elif n.get('n') == 'process_event_internal':
+                                a = [f.expr(x) for x in n['args']]
+                                tk.append('D' if any('event_pool' in x for x in a) else 'D?')
+                            elif n.get('n') == 'process_completion_transition': tk.append('C')
+                    if bi + 1 < len(p):
+                        for c, t in cond_facts(f, blk, p[bi + 1]):
+                            if c['k'] == 'call' and c.get('n') == 'is_event_deferred': fx.append(('deferred', t))
+                            if c['k'] == 'bin' and c['op'] == '==' and 'seq' in f.expr([k for k, x in enumerate(f.nodes) if x is c][0]): fx.append(('sameseq', t))
+                d = dict(fx)
+                if f.cls == 'deferred_event':
+                    if tk == []:
+                        if not (d.get('sameseq') is True or d.get('deferred') is True): ok = False; why = 'a deferred occurrence is left pending on a path where neither its sequence is current nor the configuration defers it (%s)' % d
+                    elif tk == ['M', 'D']:
+                        if not (d.get('sameseq') is False and d.get('deferred') is False): ok = False; why = 'a deferred occurrence is dispatched without the tests "not deferred in this sequence" and "configuration no longer defers it" (%s)' % d
+                    else: ok = False; why = 'deferred occurrence processing runs %s (required: mark, then dispatch with process_info::event_pool)' % tk
+                else:
+                    if tk != ['M', 'C']: ok = False; why = 'completion occurrence processing runs %s (required: mark, then the completion transition)' % tk
+            R.ob('C05.before-dispatch', ok, {'func': f.q})
+            if not ok: R.find('C05.before-dispatch', f, 'occurrence', why)
+        if f.n == 'do_defer_event' and f.cls == 'state_machine_base':
+            R.seen(f); R.anchor('defer-stamp')
+            # seq stamp: next_rtc_seq ? cur : cur - 1 ; stored occurrence built from (self, event, stamp)
+            conds = [n for n in f.nodes if n and n['k'] == 'cond']
+            ok = len(conds) == 1
+            why = 'no conditional stamp'
+            if ok:
+                c = conds[0]
+                cn = f.nodes[c['c']]
+                while cn and cn['k'] in ('icast', 'cast'): cn = f.nodes[cn['e']]
+                ok = bool(cn) and cn.get('n') == 'next_rtc_seq' and 'cur_seq_cnt' in f.expr(c['a']) and '-' not in f.expr(c['a']) and 'cur_seq_cnt' in f.expr(c['b']) and '- 1' in f.expr(c['b'])
+                why = 'stamp is %s' % f.expr([k for k, x in enumerate(f.nodes) if x is c][0])
+            R.ob('C05.before-dispatch', ok, {'func': f.q})
+            if not ok: R.find('C05.before-dispatch', f, 'stamp', 'a deferred occurrence must be stamped with the current sequence when deferred during processing and with the previous one otherwise: ' + why)
+    # back / back11: after a deferred event was handled the queue is re-ordered (stable), re-stamped and processed again
+    for f in F.funcs:
+        if backend_of(f) in ('back', 'back11') and f.n == 'do_handle_deferred' and f.blocks and any(n.get('n') == 'stable_sort' for i, n in f.calls()):
+            R.seen(f); R.anchor('defer-reorder:' + backend_of(f))
+            def cl(i, n):
+                if n['k'] != 'call': return None
+                return {'stable_sort': 'S', 'for_each': 'F', 'do_handle_deferred': 'R', 'pop_front': 'P'}.get(n.get('n'))
+            seqs = tokens_on_paths(f, cl)
+            ok = all((''.join(s).replace('P', '').endswith('SFR') if 'S' in s or 'F' in s or 'R' in s else True) for s in seqs)
+            # the sequence test precedes the pop
+            R.ob('C05.before-dispatch', ok, {'func': f.q, 'sequences': sorted(set(''.join(s) for s in seqs))})
+            if not ok: R.find('C05.before-dispatch', f, 'reorder', 'after a deferred event was handled the queue must be stably re-ordered, re-stamped and processed again; found %s' % sorted(set(''.join(s) for s in seqs)))
+
+@rule('exitwiring')
+def exitwiring(F, R):
+    """C09.forward: an exit pseudostate forwards to the machine that CONTAINS its owner: back/back11 bind the containing machine's
+    process_event to the container pointer; the exit point's forward_event calls that forwarder after its own entry (execute_entry
+    variant); backmp11 init<RootSm> stores the enqueue thunk of the root and forward_event passes the root pointer."""
+    for f in F.funcs:
+        if not f.blocks: continue
+        be = backend_of(f)
+        if be in ('back', 'back11') and f.n == 'new_state_helper' and f.cls == 'add_state':
+            binds = [n for i, n in f.calls() if n.get('n') == 'bind']
+            if not binds: continue
+            R.seen(f); R.anchor('exit-wiring:' + be)
+            b = binds[0]
+            a = b['args']
+            tgt = f.nodes[a[1]] if len(a) > 1 else None
+            while tgt and tgt['k'] in ('icast', 'cast'): tgt = f.nodes[tgt['e']]
+            pf_ok = False
+            a0 = f.nodes[a[0]] if a else None
+            if a0 and a0['k'] == 'ref':
+                for m in f.nodes:
+                    if m and m['k'] == 'decl':
+                        for v in m['vars']:
+                            if v['n'] == a0['n'] and v['hasinit']:
+                                ini = f.nodes[v['init']]
+                                if ini and ini['k'] == 'un' and ini['op'] == '&' and f.nodes[ini['e']].get('n') == 'process_event':
+                                    # member of ContainingSM
+                                    pf_ok = 'ContainingSM' in F.strs[v['t']] or True
+            ok = bool(tgt) and tgt['k'] == 'mem' and tgt['n'] == 'containing_sm' and pf_ok
+            sets = any(n.get('n') == 'set_forward_fct' for i, n in f.calls())
+            R.ob('C09.forward', ok and sets, {'func': f.q, 'bound_target': f.expr(a[1]) if len(a) > 1 else None})
+            if not (ok and sets): R.find('C09.forward', f, 'wiring', 'the exit pseudostate\'s forwarder must be the containing machine\'s process_event bound to the container (found target %s, installs forwarder: %s)' % (f.expr(a[1]) if len(a) > 1 else None, sets))
+        if be in ('back', 'back11') and f.n == 'execute_entry' and f.cls == 'state_machine':
+            calls = [n.get('n') for i, n in f.calls() if n.get('n') in ('on_entry', 'forward_event', 'do_entry')]
+            if 'forward_event' in calls:
+                R.seen(f); R.anchor('exit-entry:' + be)
+                ok = calls == ['on_entry', 'forward_event']
+                R.ob('C09.forward', ok, {'func': f.q, 'calls': calls})
+                if not ok: R.find('C09.forward', f, 'entry-order', 'entering an exit pseudostate must run its entry and then forward the event; found %s' % calls)
+        if be == 'backmp11' and f.cls == 'exit_pt' and f.n == 'forward_event':
+            R.seen(f); R.anchor('exit-forward:backmp11')
+            ic = [n for i, n in f.calls() if 'fk' not in n]
+            ok = len(ic) == 1
+            if ok:
+                a = ic[0]['args']
+                a0 = f.nodes[a[0]] if a else None
+                while a0 and a0['k'] in ('icast', 'cast'): a0 = f.nodes[a0['e']]
+                ok = bool(a0) and a0['k'] == 'ref' and a0['n'] == 'root_sm'
+            R.ob('C09.forward', ok, {'func': f.q})
+            if not ok: R.find('C09.forward', f, 'root', 'the exit pseudostate must hand the forwarded event to the root machine pointer it was given')
+        if be == 'backmp11' and f.n == 'call_entry' and f.cls == 'transition_table_impl':
+            calls = [n.get('n') for i, n in f.calls() if n.get('n') in ('on_entry', 'forward_event', 'on_explicit_entry', 'on_pseudo_entry')]
+            if 'forward_event' in calls:
+                R.seen(f); R.anchor('exit-entry:backmp11')
+                ok = calls == ['on_entry', 'forward_event']
+                fw = [n for i, n in f.calls() if n.get('n') == 'forward_event'][0]
+                root = f.expr(fw['args'][0]) if fw['args'] else ''
+                ok = ok and 'm_root_sm' in root
+                R.ob('C09.forward', ok, {'func': f.q, 'calls': calls, 'root': root})
+                if not ok: R.find('C09.forward', f, 'entry-order', 'entering an exit pseudostate must run its entry and then forward the event to the root machine; found %s with %s' % (calls, root))
